@@ -11,6 +11,7 @@ Direct oracle (independent of the Coq model): every case is generated FROM an an
 (centre, radius, orthonormal frame, angles), so the expected third point and the expected length
 radius*angle are known without looking at any formula of the code.
 """
+import hashlib
 import json
 import math
 import re
@@ -205,6 +206,21 @@ def _vertices(p, q):
     return Vertex(list(p), 0), Vertex(list(q), 1)
 
 
+def _moved_here(case):
+    """decided by the case itself (replays agree): the edge item is first created and evaluated on OTHER end positions and
+    its vertices are then moved to the case's positions - what an optimizer does to an assembled mesh before it is written.
+    An edge is a function of where its vertices are now."""
+    return int(hashlib.sha1(json.dumps(case, sort_keys=True, default=str).encode()).hexdigest()[:4], 16) % 2 == 0
+
+
+def _touch(edge):
+    for name in ("third_point", "length", "is_valid", "description"):
+        try:
+            getattr(edge, name)
+        except Exception:  # noqa: BLE001
+            pass
+
+
 _ARC_LINE = re.compile(r"^\tarc (\d+) (\d+) \(([-0-9.e+]+) ([-0-9.e+]+) ([-0-9.e+]+)\)$")
 
 
@@ -228,23 +244,47 @@ def run_impl(case):
         warnings.simplefilter("ignore")
         try:
             if k in ("theta", "helix"):
-                v1, v2 = _vertices(case["p1"], case["p2"])
-                edge = factory.create(v1, v2, ed.Angle(case["theta"], case["axis"]))
+                if _moved_here(case):
+                    d = np.array(case["p2"], dtype=float) - np.array(case["p1"], dtype=float)
+                    v1, v2 = _vertices(np.array(case["p1"]) + 0.5 * d, np.array(case["p2"]) + 2.0 * d)
+                    edge = factory.create(v1, v2, ed.Angle(case["theta"], case["axis"]))
+                    _touch(edge)
+                    v1.move_to(case["p1"])
+                    v2.move_to(case["p2"])
+                else:
+                    v1, v2 = _vertices(case["p1"], case["p2"])
+                    edge = factory.create(v1, v2, ed.Angle(case["theta"], case["axis"]))
                 out["axis"] = lst(edge.data.axis.components)
                 out["third"] = lst(edge.third_point.position)
                 out["valid"] = bool(edge.is_valid)
                 out["length"] = float(edge.length)
                 out["written"] = written_point(edge.description)
             elif k == "origin":
-                v1, v2 = _vertices(case["p1"], case["p3"])
-                edge = factory.create(v1, v2, ed.Origin(case["origin"], case["flatness"]))
+                if _moved_here(case):
+                    o = np.array(case["origin"], dtype=float)
+                    v1, v2 = _vertices(o + 0.5 * (np.array(case["p1"]) - o), o + 0.5 * (np.array(case["p3"]) - o))
+                    edge = factory.create(v1, v2, ed.Origin(case["origin"], case["flatness"]))
+                    _touch(edge)
+                    v1.move_to(case["p1"])
+                    v2.move_to(case["p3"])
+                else:
+                    v1, v2 = _vertices(case["p1"], case["p3"])
+                    edge = factory.create(v1, v2, ed.Origin(case["origin"], case["flatness"]))
                 out["third"] = lst(edge.third_point.position)
                 out["valid"] = bool(edge.is_valid)
                 out["length"] = float(edge.length)
                 out["written"] = written_point(edge.description)
             elif k == "arc3":
-                v1, v2 = _vertices(case["ps"], case["pe"])
-                edge = factory.create(v1, v2, ed.Arc(case["pb"]))
+                if _moved_here(case):
+                    c = (np.array(case["ps"], dtype=float) + np.array(case["pe"], dtype=float)) / 2
+                    v1, v2 = _vertices(c + 0.5 * (np.array(case["ps"]) - c), c + 0.5 * (np.array(case["pe"]) - c))
+                    edge = factory.create(v1, v2, ed.Arc(case["pb"]))
+                    _touch(edge)
+                    v1.move_to(case["ps"])
+                    v2.move_to(case["pe"])
+                else:
+                    v1, v2 = _vertices(case["ps"], case["pe"])
+                    edge = factory.create(v1, v2, ed.Arc(case["pb"]))
                 out["valid"] = bool(edge.is_valid)
                 out["length"] = float(edge.length)
                 out["length_fn"] = float(f.arc_length_3point(np.array(case["ps"]), np.array(case["pb"]), np.array(case["pe"])))
